@@ -7,6 +7,7 @@ import (
 	"path/filepath"
 	"runtime/debug"
 	"sort"
+	"strings"
 )
 
 type propFn func(w *World, r *Report)
@@ -23,7 +24,35 @@ func main() {
 	known := flag.String("known", "/verif/known_findings.json", "known findings file")
 	verbose := flag.Bool("v", false, "print every obligation")
 	dumpKinds := flag.Bool("dump-kinds", false, "print the result-kind table of the builtins and exit")
+	checkAnchors := flag.Bool("check-anchors", false, "compare the by-name and the structural resolution of every anchor and exit")
 	flag.Parse()
+	if *checkAnchors {
+		w, err := loadWorld(*repo, false, "", nil)
+		if err != nil {
+			fmt.Println(err)
+			os.Exit(2)
+		}
+		var keys []string
+		for k := range anchorTable {
+			keys = append(keys, k)
+		}
+		sort.Strings(keys)
+		bad := 0
+		for _, k := range keys {
+			i := strings.Index(k, "|")
+			byName, byShape := w.Fn(k[:i], k[i+1:]), w.anchorOf(k[:i], k[i+1:])
+			st := "ok"
+			if byShape == nil || (byName != nil && byName != byShape) {
+				st = "MISMATCH"
+				bad++
+			}
+			fmt.Printf("%-40s name=%v shape=%v %s\n", k, byName, byShape, st)
+		}
+		if bad > 0 {
+			os.Exit(1)
+		}
+		return
+	}
 	if *dumpKinds {
 		w, err := loadWorld(*repo, false, "", nil)
 		if err != nil {
